@@ -396,7 +396,7 @@ fn run_mem_session(p: &Prog, lines: &[String], res: &mut Res) {
                         }
                         Ok(Err(e)) => {
                             if mapped {
-                                // (repaired by 37b4832: the key stays, a regression is a VIOLATION)
+                                // (repaired by 829a669: the key stays, a regression is a VIOLATION)
                                 if !lv.all_mapped(off, span) {
                                     res.fail("read-tail-of-mapping-eio", format!("read_memory(window+{off}, {n}): [a,a+n) is mapped and ends {} byte(s) before the end of its mapping, the read fails ({e}): the last word peek runs past the mapping", off + span - (off + n)), rp);
                                 } else { res.fail("read-of-mapped-range-fails", format!("read_memory(window+{off}, {n}) failed ({e}) although the whole word span is mapped"), rp); }
